@@ -124,3 +124,54 @@ Section AllFeatures.
     apply aa_uniq_of_nodup. eapply aa_nodup_perm; [apply ssort_perm|]. apply merged_aa_nodup, Ha.
   Qed.
 End AllFeatures.
+
+(* ================= aa: records through merge, sort and duplicate removal ================= *)
+(* the duplicate removal only drops start-abutting deletions and records equal to the last kept one: every other
+   variant of the sorted list is still in the output *)
+Lemma dedupe_keeps l : forall prev v, In v (map fst l) ->
+  (match v_kind v with KDel => (v_pos v =? 0)%Z | _ => false end) = false ->
+  In v (map fst (dedupe prev l)) \/ prev = Some v.
+Proof.
+  induction l as [|x t IH]; intros prev v Hin Hd; [contradiction|]. cbn [map] in Hin. cbn [dedupe].
+  destruct ((match v_kind (fst x) with KDel => true | _ => false end) && (v_pos (fst x) =? 0)%Z) eqn:Edel.
+  - destruct Hin as [<-|Hin]; [|apply (IH prev v Hin Hd)]. exfalso. destruct (v_kind (fst x)); cbn in Edel; try discriminate. rewrite Edel in Hd. discriminate.
+  - destruct (match prev with Some p => variant_eqb (fst x) p | None => false end) eqn:Edup.
+    + destruct Hin as [<-|Hin]; [|apply (IH prev v Hin Hd)]. right. destruct prev as [p|]; [|discriminate]. apply variant_eqb_eq in Edup. rewrite Edup. reflexivity.
+    + cbn [map]. destruct Hin as [<-|Hin]; [left; left; reflexivity|].
+      destruct (IH (Some (fst x)) v Hin Hd) as [H|H]; [left; right; exact H|]. injection H as <-. left. left. reflexivity.
+Qed.
+
+Section AaFinal.
+  Variables (ref que : list N) (gs : list region) (inter : list nat).
+  (* sound: an aa: record of the final list was emitted by the codon loop of one of the features;
+     complete: every aa: record a feature's codon loop emits is in the final list *)
+  Theorem aa_final_exact out : variants_pair_traced ref que gs inter = Ok out -> forall v, v_kind v = KAA ->
+    (In v (map fst out) <-> exists g l, In g gs /\ get_aas_traced ref que (ref_to_msa ref) g = Ok l /\ In v (map fst l)).
+  Proof.
+    intros H v Hk. unfold variants_pair_traced in H. destruct (all_aas ref que (ref_to_msa ref) gs) as [aas| |] eqn:Ea; try discriminate.
+    cbn [bind] in H. injection H as <-.
+    set (L := map (fun i => (mk_indel i, @nil nat)) (Indels.get_indels (cols_of_rows ref que)) ++
+              map trace_nuc (get_nucs ref que (ref_to_msa ref) inter) ++ aas).
+    assert (Haas : In v (map fst aas) <-> exists g l, In g gs /\ get_aas_traced ref que (ref_to_msa ref) g = Ok l /\ In v (map fst l)).
+    { clear L. revert aas Ea. induction gs as [|g t IH]; intros aas Ea; cbn [all_aas] in Ea.
+      - injection Ea as <-. split; [intros []|intros (g & l & [] & _)].
+      - destruct (get_aas_traced ref que (ref_to_msa ref) g) as [a| |] eqn:Eg; try discriminate. cbn [bind] in Ea.
+        destruct (all_aas ref que (ref_to_msa ref) t) as [r| |] eqn:Er; try discriminate. cbn [bind] in Ea. injection Ea as <-.
+        rewrite map_app, in_app_iff, (IH r eq_refl). split.
+        + intros [Hv|(g' & l & Hg' & Hl & Hv)]; [exists g, a; split; [left; reflexivity|split; [exact Eg|exact Hv]]|].
+          exists g', l. split; [right; exact Hg'|split; assumption].
+        + intros (g' & l & [<-|Hg'] & Hl & Hv); [left; rewrite Eg in Hl; injection Hl as <-; exact Hv|].
+          right. exists g', l. split; [exact Hg'|split; assumption]. }
+    assert (HL : In v (map fst L) <-> In v (map fst aas)).
+    { unfold L. rewrite !map_app, !in_app_iff. split; [|intros Hv; right; right; exact Hv]. intros [Hv|[Hv|Hv]]; [| |exact Hv].
+      - exfalso. rewrite map_map in Hv. apply in_map_iff in Hv. destruct Hv as (i & <- & _). destruct i; discriminate.
+      - exfalso. rewrite map_map in Hv. cbn [fst trace_nuc] in Hv. rewrite map_id in Hv. apply get_nucs_iff in Hv. destruct Hv as (p & _ & _ & ->). discriminate. }
+    rewrite <- Haas, <- HL. split.
+    - intros Hv. apply in_map_iff in Hv. destruct Hv as (x & <- & Hx). apply dedupe_sub in Hx. apply (proj1 (VariantsProofs.ssort_In t_lt L x)) in Hx.
+      apply in_map. exact Hx.
+    - intros Hv. apply in_map_iff in Hv. destruct Hv as (x & <- & Hx).
+      destruct (dedupe_keeps (ssort (variant * list nat) t_lt L) None (fst x)) as [Hd|Hd]; [| |exact Hd|discriminate].
+      + apply in_map. apply (proj2 (VariantsProofs.ssort_In t_lt L x)). exact Hx.
+      + rewrite Hk. reflexivity.
+  Qed.
+End AaFinal.
